@@ -119,5 +119,851 @@ Proof. unfold bytes. intros. apply Forall_app. split; assumption. Qed.
 Lemma bytes_take l n : bytes l -> bytes (take n l).
 Proof.
   unfold bytes, take. intros H. rewrite Forall_forall in *. intros x Hx. apply H.
-  eapply In_firstn_lemma; eauto.
+  rewrite <- (firstn_skipn (Z.to_nat n) l). apply in_or_app. left. exact Hx.
+Qed.
+
+(* ---- big-endian fields --------------------------------------------------------------------------- *)
+Lemma cfg_of_be_be32 v : 0 <= v < 4294967296 -> of_be (be32 v) 0 = v.
+Proof. intros H. unfold be32, of_be, u8. lia. Qed.
+Lemma cfg_of_be_be64 v : 0 <= v < 18446744073709551616 -> of_be (be64 v) 0 = v.
+Proof.
+  intros H. unfold be64, of_be, u8.
+  assert (E : v = (v / 4294967296) * 4294967296 + v mod 4294967296) by lia.
+  set (hi := v / 4294967296) in *. set (lo := v mod 4294967296) in *.
+  assert (Hhi : 0 <= hi < 4294967296) by lia. assert (Hlo : 0 <= lo < 4294967296) by lia.
+  replace (v / 72057594037927936) with (hi / 16777216) by lia.
+  replace (v / 281474976710656) with (hi / 65536) by lia.
+  replace (v / 1099511627776) with (hi / 256) by lia.
+  replace (v / 16777216) with (hi * 256 + lo / 16777216) by lia.
+  replace (v / 65536) with (hi * 65536 + lo / 65536) by lia.
+  replace (v / 256) with (hi * 16777216 + lo / 256) by lia.
+  lia.
+Qed.
+(* be64 of a negative int64 is be64 of its two's complement *)
+Lemma be64_mod v : be64 v = be64 (v mod 18446744073709551616).
+Proof. unfold be64, u8. repeat (f_equal; try lia). Qed.
+
+Lemma rd_be_go_spec c : forall k i acc, 0 <= i -> i + Z.of_nat k <= len c ->
+  rd_be_go c k i acc = Ok (of_be (take (Z.of_nat k) (drop i c)) acc).
+Proof.
+  induction k as [|k IH]; intros i acc Hi Hk; cbn [rd_be_go].
+  - reflexivity.
+  - rewrite idx_in by lia. rewrite bind_Ok. rewrite IH by lia. f_equal.
+    assert (E : take (Z.of_nat (S k)) (drop i c) = nz c i :: take (Z.of_nat k) (drop (i + 1) c)).
+    { unfold take, drop, nz, len in *. rewrite !Nat2Z.id.
+      replace (Z.to_nat (i + 1)) with (S (Z.to_nat i)) by lia.
+      assert (Hlt : (Z.to_nat i < length c)%nat) by lia. revert Hlt. generalize (Z.to_nat i) as m. clear.
+      intros m. revert c. induction m as [|m IHm]; intros c Hlt; destruct c as [|x c]; cbn in *; try lia; [reflexivity|].
+      apply IHm. lia. }
+    rewrite E. reflexivity.
+Qed.
+Lemma rd_be_mid pre e post i a k : i = len pre -> 0 <= a -> a + Z.of_nat k <= len e ->
+  rd_be (pre ++ e ++ post) (i + a) k = Ok (of_be (take (Z.of_nat k) (drop a e)) 0).
+Proof.
+  intros -> Ha Hk. pose proof (len_nonneg pre). pose proof (len_nonneg post). unfold rd_be.
+  rewrite rd_be_go_spec by (rewrite ?len_app; lia). f_equal. f_equal.
+  rewrite drop_app_ge by lia. replace (len pre + a - len pre) with a by lia.
+  rewrite drop_app_le by lia. apply take_app_le. rewrite len_drop by lia. lia.
+Qed.
+
+(* ---- Config.next on fixed-size settings ------------------------------------------------------------- *)
+Definition fixed_len (k : kind) : option Z :=
+  match k with
+  | KSep | KSel | KConn | KWrap | KTB64 => Some 1
+  | KIP | KB64S | KJitter | KWeight | KTLSx | KSelPct => Some 2
+  | KCBK | KWorkHours => Some 6
+  | KSleep | KKillDate => Some 9
+  | KKeyPin => Some 5
+  | _ => None
+  end.
+Lemma next_fixed c i L : 0 <= i < len c -> fixed_len (kind_of (nz c i)) = Some L -> next c i = Ok (i + L).
+Proof.
+  intros Hi. unfold next. replace ((len c <? i) || (i <? 0)) with false by lia.
+  rewrite idx_in by lia. rewrite bind_Ok.
+  destruct (kind_of (nz c i)); cbn [fixed_len]; intros [= <-] || discriminate; reflexivity.
+Qed.
+
+(* what next_enc concludes *)
+Definition stride_ok (c : list Z) (i L : Z) (last : bool) : Prop :=
+  exists r, next c i = Ok r /\ fixn c i r = i + L /\ (last = false -> r = i + L).
+
+Lemma stride_ok_exact c i L last : 0 <= i -> 0 < L -> i + L <= len c -> next c i = Ok (i + L) -> stride_ok c i L last.
+Proof.
+  intros Hi HL Hc H. exists (i + L). split; [exact H|]. split; [|reflexivity].
+  rewrite fixn_fwd by lia. replace (i + L <=? len c) with true by lia. reflexivity.
+Qed.
+Lemma stride_ok_end c i L : i + L = len c -> next c i = Ok (-1) -> stride_ok c i L true.
+Proof. intros Hc H. exists (-1). split; [exact H|]. split; [|discriminate]. rewrite fixn_m1. lia. Qed.
+
+Ltac ll := unfold len, be64, be32 in *; cbn [length] in *; rewrite ?app_length in *; cbn [length] in *; lia.
+
+Lemma stride_fixed pre e post L : len e = L -> fixed_len (kind_of (nz e 0)) = Some L -> 0 < L ->
+  stride_ok (pre ++ e ++ post) (len pre) L (is_nil post).
+Proof.
+  intros He Hk HL. pose proof (len_nonneg pre). pose proof (len_nonneg post).
+  apply stride_ok_exact; try lia.
+  - rewrite !len_app. lia.
+  - apply next_fixed; [rewrite !len_app; lia|].
+    replace (len pre) with (len pre + 0) by lia. rewrite nz_mid by lia. exact Hk.
+Qed.
+
+Lemma i64_small d : 0 <= d < 9223372036854775808 -> i64 d = d.
+Proof. intros H. unfold i64, sgn. cbv zeta. change (2 ^ 64) with 18446744073709551616.
+  replace (d mod 18446744073709551616) with d by lia.
+  replace (d <? 18446744073709551616 / 2) with true by lia. reflexivity. Qed.
+Lemma i64_wrap u : -9223372036854775808 <= u < 9223372036854775808 -> i64 (u mod 18446744073709551616) = u.
+Proof. intros H. unfold i64, sgn. cbv zeta. change (2 ^ 64) with 18446744073709551616.
+  rewrite Z.mod_mod by lia.
+  destruct (u mod 18446744073709551616 <? 18446744073709551616 / 2) eqn:E; lia. Qed.
+
+(* the tag byte of an encoded setting *)
+Definition tag_of (s : setting) : Z := nz (enc s) 0.
+
+(* what is proved about every encoded setting: the stride is its length, and build_step reads back its meaning *)
+Definition setting_ok (s : setting) : Prop :=
+  forall pre post p z,
+    (is_conn s = true -> has_conn p = false) -> (is_trans s = true -> has_trans p = false) ->
+    let c := pre ++ enc s ++ post in let i := len pre in let L := len (enc s) in
+    stride_ok c i L (is_nil post)
+    /\ is_sep (kind_of (tag_of s)) = false
+    /\ build_step true c i (i + L) (tag_of s) (kind_of (tag_of s)) (p, z) = Ok (interp_step s (p, z)).
+
+Ltac idxm pre e post Hi :=
+  repeat match goal with
+  | |- context [idx (pre ++ e ++ post) (?i + ?k)] => rewrite (idx_mid pre e post i k Hi) by ll; nzlit; rewrite ?bind_Ok
+  end.
+Ltac ifs := repeat match goal with
+  | |- context [if ?b then _ else _] =>
+    first [replace b with false by ll | replace b with true by ll]
+  end.
+
+Lemma ok_sleep d : wf_setting (SSleep d) = true -> enc (SSleep d) <> [] -> setting_ok (SSleep d).
+Proof.
+  cbn [wf_setting enc]. intros Hw He pre post p z _ _. destruct (d <=? 0) eqn:E; [congruence|].
+  cbv zeta. unfold tag_of, interp_step. cbn [enc]. rewrite E. nzlit. change (kind_of 161) with KSleep.
+  change (len (161 :: be64 d)) with 9.
+  split; [apply stride_fixed; [reflexivity|reflexivity|lia]|]. split; [reflexivity|].
+  assert (Hi : len pre = len pre) by reflexivity.
+  unfold build_step. ifs.
+  rewrite (rd_be_mid pre (161 :: be64 d) post (len pre) 1 8 Hi) by ll. rewrite bind_Ok.
+  change (drop 1 (161 :: be64 d)) with (be64 d). rewrite take_all by ll. rewrite cfg_of_be_be64 by lia.
+  rewrite i64_small by lia. replace (d <? 0) with false by lia. reflexivity.
+Qed.
+
+Ltac fixed_intro := intros pre post p z Hc Ht; cbv zeta; unfold tag_of, interp_step; cbn [enc].
+Ltac fixed_split pre :=
+  split; [apply stride_fixed; [reflexivity|reflexivity|lia]|]; split; [reflexivity|];
+  let Hi := fresh "Hi" in assert (Hi : len pre = len pre) by reflexivity; unfold build_step.
+
+Lemma ok_jitter n : wf_setting (SJitter n) = true -> setting_ok (SJitter n).
+Proof.
+  intros _. fixed_intro. nzlit. change (kind_of 162) with KJitter. change (len [162; lo8 n]) with 2.
+  fixed_split pre. ifs. idxm pre [162; lo8 n] post Hi. reflexivity.
+Qed.
+
+Lemma ok_weight w : wf_setting (SWeight w) = true -> enc (SWeight w) <> [] -> setting_ok (SWeight w).
+Proof.
+  intros _ He. cbn [enc] in He. fixed_intro. destruct (w =? 0) eqn:E; [congruence|].
+  nzlit. change (kind_of 163) with KWeight. change (len [163; lo8 w]) with 2.
+  fixed_split pre. ifs. idxm pre [163; lo8 w] post Hi. reflexivity.
+Qed.
+
+Lemma ok_killdate zero u : wf_setting (SKillDate zero u) = true -> setting_ok (SKillDate zero u).
+Proof.
+  cbn [wf_setting]. intros Hw. fixed_intro. destruct zero.
+  - nzlit. change (kind_of 164) with KKillDate. change (len [164; 0; 0; 0; 0; 0; 0; 0; 0]) with 9.
+    fixed_split pre. ifs.
+    rewrite (rd_be_mid pre [164; 0; 0; 0; 0; 0; 0; 0; 0] post (len pre) 1 8 Hi) by ll. rewrite bind_Ok.
+    reflexivity.
+  - nzlit. change (kind_of 164) with KKillDate. change (len (164 :: be64 u)) with 9.
+    fixed_split pre. ifs.
+    rewrite (rd_be_mid pre (164 :: be64 u) post (len pre) 1 8 Hi) by ll. rewrite bind_Ok.
+    change (drop 1 (164 :: be64 u)) with (be64 u). rewrite take_all by ll.
+    rewrite be64_mod, cfg_of_be_be64 by lia. cbn [orb]. unfold u64.
+    destruct (u mod 18446744073709551616 =? 0); [reflexivity|]. rewrite i64_wrap by lia. reflexivity.
+Qed.
+
+Lemma ok_workhours d sh sm eh em : wf_setting (SWorkHours d sh sm eh em) = true -> setting_ok (SWorkHours d sh sm eh em).
+Proof.
+  cbn [wf_setting]. intros Hw. fixed_intro. nzlit. change (kind_of 165) with KWorkHours.
+  change (len [165; d; sh; sm; eh; em]) with 6.
+  fixed_split pre. ifs. idxm pre [165; d; sh; sm; eh; em] post Hi. ifs. reflexivity.
+Qed.
+
+Lemma ok_keypin empty h : wf_setting (SKeyPin empty h) = true -> enc (SKeyPin empty h) <> [] -> setting_ok (SKeyPin empty h).
+Proof.
+  cbn [wf_setting enc]. intros Hw He. fixed_intro. destruct empty; [congruence|].
+  nzlit. change (kind_of 166) with KKeyPin. change (len (166 :: be32 h)) with 5.
+  fixed_split pre. ifs.
+  rewrite (rd_be_mid pre (166 :: be32 h) post (len pre) 1 4 Hi) by ll. rewrite bind_Ok.
+  change (drop 1 (166 :: be32 h)) with (be32 h). rewrite take_all by ll.
+  rewrite cfg_of_be_be32 by lia. reflexivity.
+Qed.
+
+Lemma ok_ip pr : wf_setting (SIP pr) = true -> setting_ok (SIP pr).
+Proof.
+  cbn [wf_setting]. intros Hw. fixed_intro. nzlit. change (kind_of 176) with KIP. change (len [176; lo8 pr]) with 2.
+  fixed_split pre. rewrite (Hc eq_refl). ifs. idxm pre [176; lo8 pr] post Hi. ifs. reflexivity.
+Qed.
+
+Lemma ok_tlsex ver : wf_setting (STLSEx ver) = true -> setting_ok (STLSEx ver).
+Proof.
+  intros _. fixed_intro. nzlit. change (kind_of 178) with KTLSx. change (len [178; lo8 ver]) with 2.
+  fixed_split pre. rewrite (Hc eq_refl). ifs. idxm pre [178; lo8 ver] post Hi. reflexivity.
+Qed.
+
+Lemma ok_cbk s a b c d : wf_setting (SCBK s a b c d) = true -> setting_ok (SCBK s a b c d).
+Proof.
+  intros _. fixed_intro. nzlit. change (kind_of 213) with KCBK. change (len [213; s; a; b; c; d]) with 6.
+  fixed_split pre. ifs. idxm pre [213; s; a; b; c; d] post Hi. reflexivity.
+Qed.
+
+Lemma ok_b64s s : wf_setting (SB64S s) = true -> setting_ok (SB64S s).
+Proof.
+  intros _. fixed_intro. nzlit. change (kind_of 226) with KB64S. change (len [226; lo8 s]) with 2.
+  fixed_split pre. rewrite (Ht eq_refl). ifs. idxm pre [226; lo8 s] post Hi. reflexivity.
+Qed.
+
+Lemma ok_bit b : wf_setting (SBit b) = true -> setting_ok (SBit b).
+Proof.
+  cbn [wf_setting]. intros Hw. fixed_intro. nzlit. change (len [b]) with 1.
+  cbn [is_conn is_trans] in Hc, Ht.
+  assert (Hi : len pre = len pre) by reflexivity.
+  destruct (kind_of b) eqn:K; try discriminate;
+    (split; [apply stride_fixed; [reflexivity|rewrite nz_0, K; reflexivity|lia]|]; split; [reflexivity|]); unfold build_step.
+  - rewrite (idx_mid0 pre [b] post (len pre) Hi) by ll. reflexivity.
+  - rewrite (Hc eq_refl). reflexivity.
+  - reflexivity.
+  - rewrite (Ht eq_refl). reflexivity.
+Qed.
+
+(* ---- one 16-bit length: host, xor, tls-ca ------------------------------------------------------------ *)
+Lemma is_nil_take16 {A} (l : list A) : is_nil (take 65535 l) = is_nil l.
+Proof. destruct l; reflexivity. Qed.
+Lemma is_nil_len {A} (l : list A) : is_nil l = (len l =? 0).
+Proof. destruct l; [reflexivity|]. rewrite len_cons. pose proof (len_nonneg l). cbn [is_nil]. lia. Qed.
+
+Lemma next_len16 pre t lb body post : kind_of t = KHost \/ kind_of t = KXOR -> lb = len body -> 0 < lb < 65536 ->
+  next (pre ++ (t :: hi8 lb :: lo8 lb :: body) ++ post) (len pre) = Ok (len pre + (3 + lb)).
+Proof.
+  intros K Hlb Hr. pose proof (len_nonneg pre). pose proof (len_nonneg post).
+  set (e := t :: hi8 lb :: lo8 lb :: body). assert (He : len e = 3 + lb) by (subst e; rewrite !len_cons; lia).
+  assert (Hi : len pre = len pre) by reflexivity.
+  unfold next. rewrite !len_app, He. replace ((len pre + (3 + lb + len post) <? len pre) || (len pre <? 0)) with false by lia.
+  rewrite (idx_mid0 pre e post (len pre) Hi) by lia. rewrite bind_Ok. subst e. nzlit.
+  set (e := t :: hi8 lb :: lo8 lb :: body) in *.
+  assert (G : (if len pre + (3 + lb + len post) <=? len pre + 3 then Ok (-1)
+               else do b1 <- idx (pre ++ e ++ post) (len pre + 1); do b2 <- idx (pre ++ e ++ post) (len pre + 2); Ok (len pre + 3 + w16 b1 b2))
+              = Ok (len pre + (3 + lb))).
+  { replace (len pre + (3 + lb + len post) <=? len pre + 3) with false by lia.
+    rewrite !(idx_mid pre e post (len pre) _ Hi) by lia. rewrite !bind_Ok. subst e. nzlit.
+    rewrite w16_hi_lo by lia. f_equal. lia. }
+  destruct K as [-> | ->]; exact G.
+Qed.
+
+Lemma ok_host h : wf_setting (SHost h) = true -> enc (SHost h) <> [] -> setting_ok (SHost h).
+Proof.
+  cbn [wf_setting enc]. intros Hw He pre post p z _ _. cbv zeta. unfold tag_of, interp_step. cbn [enc].
+  destruct (len h =? 0) eqn:E; [congruence|]. cbv zeta. rewrite take_clamp16, <- len_take16.
+  set (body := take 65535 h). set (lb := len body).
+  assert (Hlb : 0 < lb < 65536).
+  { subst lb body. pose proof (len_nonneg h). rewrite len_take_min by lia. lia. }
+  change ([160; hi8 lb; lo8 lb] ++ body) with (160 :: hi8 lb :: lo8 lb :: body). nzlit. change (kind_of 160) with KHost.
+  set (e := 160 :: hi8 lb :: lo8 lb :: body). assert (HL : len e = 3 + lb) by (subst e; rewrite !len_cons; fold lb; lia).
+  rewrite HL. pose proof (len_nonneg pre). pose proof (len_nonneg post).
+  assert (Hi : len pre = len pre) by reflexivity.
+  split; [|split; [reflexivity|]].
+  - apply stride_ok_exact; try lia; [rewrite !len_app, HL; lia|]. apply next_len16; [left; reflexivity|reflexivity|lia].
+  - unfold build_step. replace (len pre + (3 + lb) <=? len pre + 3) with false by lia.
+    rewrite !(idx_mid pre e post (len pre) _ Hi) by lia. rewrite !bind_Ok. subst e. nzlit.
+    rewrite w16_hi_lo by lia. cbv zeta.
+    replace ((len pre + (3 + lb) <? lb + len pre + 3) || (lb + len pre <? len pre)) with false by lia.
+    rewrite (slice_mid pre _ post _ _ 3) by (rewrite ?len_cons; fold lb; lia). rewrite bind_Ok.
+    change (drop 3 (160 :: hi8 lb :: lo8 lb :: body)) with body.
+    rewrite take_all by (fold lb; lia). reflexivity.
+Qed.
+
+Lemma ok_xor k : wf_setting (SXOR k) = true -> setting_ok (SXOR k).
+Proof.
+  cbn [wf_setting]. intros Hw pre post p z _ _. cbv zeta. unfold tag_of, interp_step. cbn [enc].
+  cbv zeta. rewrite take_clamp16, <- len_take16.
+  set (body := take 65535 k). set (lb := len body).
+  assert (Hlb : 0 < lb < 65536).
+  { subst lb body. pose proof (len_nonneg k). rewrite len_take_min by lia.
+    assert (len k <> 0) by (rewrite <- Z.eqb_neq, <- is_nil_len; unfold nonempty in Hw; destruct (is_nil k); [rewrite andb_false_r in Hw; discriminate|reflexivity]).
+    lia. }
+  change ([212; hi8 lb; lo8 lb] ++ body) with (212 :: hi8 lb :: lo8 lb :: body). nzlit. change (kind_of 212) with KXOR.
+  set (e := 212 :: hi8 lb :: lo8 lb :: body). assert (HL : len e = 3 + lb) by (subst e; rewrite !len_cons; fold lb; lia).
+  rewrite HL. pose proof (len_nonneg pre). pose proof (len_nonneg post).
+  assert (Hi : len pre = len pre) by reflexivity.
+  split; [|split; [reflexivity|]].
+  - apply stride_ok_exact; try lia; [rewrite !len_app, HL; lia|]. apply next_len16; [right; reflexivity|reflexivity|lia].
+  - unfold build_step. replace (len pre + (3 + lb) <=? len pre + 3) with false by lia.
+    rewrite !(idx_mid pre e post (len pre) _ Hi) by lia. rewrite !bind_Ok. subst e. nzlit.
+    rewrite w16_hi_lo by lia. cbv zeta.
+    replace ((len pre + (3 + lb) <? lb + len pre + 3) || (lb + len pre <? len pre)) with false by lia.
+    rewrite (slice_mid pre _ post _ _ 3) by (rewrite ?len_cons; fold lb; lia). rewrite bind_Ok.
+    change (drop 3 (212 :: hi8 lb :: lo8 lb :: body)) with body.
+    rewrite take_all by (fold lb; lia). reflexivity.
+Qed.
+
+(* ---- TLS blobs ------------------------------------------------------------------------------------------ *)
+Lemma next_head pre e post L : len e = L -> 0 < L ->
+  next (pre ++ e ++ post) (len pre) =
+  (let c := pre ++ e ++ post in let i := len pre in
+   match kind_of (nz e 0) with
+  | KSep | KSel | KConn | KWrap | KTB64 => Ok (i + 1)
+  | KIP | KB64S | KJitter | KWeight | KTLSx | KSelPct => Ok (i + 2)
+  | KCBK | KWorkHours => Ok (i + 6)
+  | KSleep | KKillDate => Ok (i + 9)
+  | KKeyPin => Ok (i + 5)
+  | KWC2 =>
+    if len c <=? i + 7 then Ok (-1) else
+    do b1 <- idx c (i + 1); do b2 <- idx c (i + 2); do b3 <- idx c (i + 3); do b4 <- idx c (i + 4);
+    do b5 <- idx c (i + 5); do b6 <- idx c (i + 6); do b7 <- idx c (i + 7);
+    let n := i + 8 + w16 b1 b2 + w16 b3 b4 + w16 b5 b6 in
+    if len c <=? n then Ok (-1) else
+    do _ <- idx c n;
+    if b7 =? 0 then Ok n else wc2_walk c (Z.to_nat b7) n
+  | KXOR | KHost =>
+    if len c <=? i + 3 then Ok (-1) else
+    do b1 <- idx c (i + 1); do b2 <- idx c (i + 2);
+    Ok (i + 3 + w16 b1 b2)
+  | KAES =>
+    if len c <=? i + 3 then Ok (-1) else
+    do b1 <- idx c (i + 1); do b2 <- idx c (i + 2);
+    Ok (i + 3 + b1 + b2)
+  | KMuTLS =>
+    if len c <=? i + 7 then Ok (-1) else
+    do b2 <- idx c (i + 2); do b3 <- idx c (i + 3); do b4 <- idx c (i + 4);
+    do b5 <- idx c (i + 5); do b6 <- idx c (i + 6); do b7 <- idx c (i + 7);
+    Ok (i + 8 + w16 b2 b3 + w16 b4 b5 + w16 b6 b7)
+  | KTLSxCA =>
+    if len c <=? i + 4 then Ok (-1) else
+    do b2 <- idx c (i + 2); do b3 <- idx c (i + 3);
+    Ok (i + 4 + w16 b2 b3)
+  | KTLSCert =>
+    if len c <=? i + 6 then Ok (-1) else
+    do b2 <- idx c (i + 2); do b3 <- idx c (i + 3); do b4 <- idx c (i + 4); do b5 <- idx c (i + 5);
+    Ok (i + 6 + w16 b2 b3 + w16 b4 b5)
+  | KDNS =>
+    if len c <=? i + 1 then Ok (-1) else
+    do b1 <- idx c (i + 1);
+    dns_walk c (Z.to_nat b1) (i + 2)
+  | KInvalid | KOther => Ok (-1)
+  end).
+Proof.
+  intros He HL. pose proof (len_nonneg pre). pose proof (len_nonneg post). cbv zeta.
+  unfold next. replace ((len (pre ++ e ++ post) <? len pre) || (len pre <? 0)) with false by (rewrite !len_app; lia).
+  rewrite (idx_mid0 pre e post (len pre) eq_refl) by lia. rewrite bind_Ok. reflexivity.
+Qed.
+
+Lemma tls_conn_ok mu ver ca pem key :
+  tls_conn true mu ver ca pem key =
+  Ok (7, [tls_minver ver; b2z (negb (is_nil pem) && negb (is_nil key)); b2z (negb (is_nil ca));
+          if negb (is_nil ca) && mu then 4 else 0], []).
+Proof. unfold tls_conn. cbn [negb]. rewrite andb_false_r. reflexivity. Qed.
+
+Lemma ok_tlsexca ver ca : wf_setting (STLSExCA ver ca) = true -> setting_ok (STLSExCA ver ca).
+Proof.
+  cbn [wf_setting]. intros Hw pre post p z Hc _. cbv zeta. unfold tag_of, interp_step. cbn [enc].
+  cbv zeta. rewrite take_clamp16, <- len_take16. rewrite <- (is_nil_take16 ca).
+  set (body := take 65535 ca). set (lb := len body).
+  assert (Hlb : 0 <= lb < 65536) by (subst lb body; apply len_take16_range).
+  change ([180; lo8 ver; hi8 lb; lo8 lb] ++ body) with (180 :: lo8 ver :: hi8 lb :: lo8 lb :: body). nzlit.
+  change (kind_of 180) with KTLSxCA.
+  set (e := 180 :: lo8 ver :: hi8 lb :: lo8 lb :: body).
+  assert (HL : len e = 4 + lb) by (subst e; rewrite !len_cons; fold lb; lia).
+  rewrite HL. pose proof (len_nonneg pre). pose proof (len_nonneg post).
+  assert (Hi : len pre = len pre) by reflexivity.
+  assert (Hlc : len (pre ++ e ++ post) = len pre + (4 + lb) + len post) by (rewrite !len_app, HL; lia).
+  split; [|split; [reflexivity|]].
+  - pose proof (next_head pre e post (4 + lb) HL ltac:(lia)) as N. cbv zeta in N.
+    subst e. rewrite nz_0 in N. change (kind_of 180) with KTLSxCA in N. cbv iota in N.
+    set (e := 180 :: lo8 ver :: hi8 lb :: lo8 lb :: body) in *. rewrite Hlc in N.
+    destruct (len pre + (4 + lb) + len post <=? len pre + 4) eqn:E.
+    + assert (len post = 0) by lia. destruct post as [|x post]; [|rewrite len_cons in *; pose proof (len_nonneg post); lia].
+      apply stride_ok_end; [lia|exact N].
+    + rewrite !(idx_mid pre e post (len pre) _ Hi) in N by lia. rewrite !bind_Ok in N. subst e. rewrite nz_2, nz_3 in N.
+      rewrite w16_hi_lo in N by lia.
+      apply stride_ok_exact; try lia. rewrite N. f_equal. lia.
+  - unfold build_step. rewrite (Hc eq_refl).
+    replace (len pre + (4 + lb) <=? len pre + 3) with false by lia.
+    rewrite !(idx_mid pre e post (len pre) _ Hi) by lia. rewrite !bind_Ok. subst e. nzlit.
+    rewrite w16_hi_lo by lia. cbv zeta.
+    replace ((len pre + (4 + lb) <? lb + len pre + 4) || (lb + len pre + 4 <? len pre)) with false by lia.
+    rewrite (slice_mid pre _ post _ _ 4) by (rewrite ?len_cons; fold lb; lia). rewrite bind_Ok.
+    change (drop 4 (180 :: lo8 ver :: hi8 lb :: lo8 lb :: body)) with body.
+    rewrite take_all by (fold lb; lia).
+    rewrite tls_conn_ok, bind_Ok. cbn [is_nil negb andb b2z]. rewrite andb_false_r. reflexivity.
+Qed.
+
+Lemma nonempty_len {A} (l : list A) : negb (is_nil l) = true -> 0 < len l.
+Proof. destruct l; cbn [is_nil negb]; [discriminate|]. intros _. rewrite len_cons. pose proof (len_nonneg l). lia. Qed.
+Lemma len16_pos {A} (l : list A) : 0 < len l -> 0 < len (take 65535 l).
+Proof. intros H. rewrite len_take_min by lia. lia. Qed.
+
+Lemma ok_tlscerts ver pem key : wf_setting (STLSCerts ver pem key) = true -> setting_ok (STLSCerts ver pem key).
+Proof.
+  cbn [wf_setting]. intros Hw pre post p z Hc _. cbv zeta. unfold tag_of, interp_step. cbn [enc].
+  cbv zeta. rewrite !take_clamp16, <- !len_take16. rewrite <- (is_nil_take16 pem), <- (is_nil_take16 key).
+  assert (Hne : 0 < len (take 65535 pem) + len (take 65535 key)).
+  { pose proof (len_take16_range pem). pose proof (len_take16_range key).
+    assert (Hn : nonempty pem || nonempty key = true) by (destruct (nonempty pem || nonempty key); [reflexivity|rewrite andb_false_r in Hw; discriminate]).
+    unfold nonempty in Hn. apply orb_true_iff in Hn. destruct Hn as [Hn|Hn]; apply nonempty_len, len16_pos in Hn; lia. }
+  set (bp := take 65535 pem) in *. set (bk := take 65535 key) in *. set (lp := len bp) in *. set (lk := len bk) in *.
+  assert (Hlp : 0 <= lp < 65536) by (subst lp bp; apply len_take16_range).
+  assert (Hlk : 0 <= lk < 65536) by (subst lk bk; apply len_take16_range).
+  change ([181; lo8 ver; hi8 lp; lo8 lp; hi8 lk; lo8 lk] ++ bp ++ bk) with (181 :: lo8 ver :: hi8 lp :: lo8 lp :: hi8 lk :: lo8 lk :: (bp ++ bk)).
+  nzlit. change (kind_of 181) with KTLSCert.
+  set (e := 181 :: lo8 ver :: hi8 lp :: lo8 lp :: hi8 lk :: lo8 lk :: (bp ++ bk)).
+  assert (HL : len e = 6 + lp + lk). { subst e. rewrite !len_cons, len_app; fold lp lk; lia. }
+  rewrite HL. pose proof (len_nonneg pre). pose proof (len_nonneg post).
+  assert (Hi : len pre = len pre) by reflexivity.
+  assert (Hlc : len (pre ++ e ++ post) = len pre + (6 + lp + lk) + len post) by (rewrite !len_app, HL; lia).
+  split; [|split; [reflexivity|]].
+  - pose proof (next_head pre e post (6 + lp + lk) HL ltac:(lia)) as N. cbv zeta in N.
+    subst e. rewrite nz_0 in N. change (kind_of 181) with KTLSCert in N. cbv iota in N.
+    set (e := 181 :: lo8 ver :: hi8 lp :: lo8 lp :: hi8 lk :: lo8 lk :: (bp ++ bk)) in *. rewrite Hlc in N.
+    replace (len pre + (6 + lp + lk) + len post <=? len pre + 6) with false in N by lia.
+    rewrite !(idx_mid pre e post (len pre) _ Hi) in N by lia. rewrite !bind_Ok in N. subst e. rewrite nz_2, nz_3, nz_4, nz_5 in N.
+    rewrite !w16_hi_lo in N by lia.
+    apply stride_ok_exact; try lia. rewrite N. f_equal. lia.
+  - unfold build_step. rewrite (Hc eq_refl).
+    replace (len pre + (6 + lp + lk) <=? len pre + 6) with false by lia.
+    rewrite !(idx_mid pre e post (len pre) _ Hi) by lia. rewrite !bind_Ok. subst e. nzlit.
+    rewrite !w16_hi_lo by lia. cbv zeta.
+    match goal with |- context [if ?b then Err EInvalid else _] => replace b with false by lia end.
+    rewrite (slice_mid pre _ post _ _ 6) by (rewrite ?len_cons, ?len_app; fold lp lk; lia). rewrite bind_Ok.
+    rewrite (slice_mid pre _ post _ _ (6 + lp)) by (rewrite ?len_cons, ?len_app; fold lp lk; lia). rewrite bind_Ok.
+    change (181 :: lo8 ver :: hi8 lp :: lo8 lp :: hi8 lk :: lo8 lk :: bp ++ bk) with ([181; lo8 ver; hi8 lp; lo8 lp; hi8 lk; lo8 lk] ++ (bp ++ bk)).
+    rewrite (drop_app_exact [181; lo8 ver; hi8 lp; lo8 lp; hi8 lk; lo8 lk] (bp ++ bk) 6) by reflexivity.
+    rewrite (drop_app_ge [181; lo8 ver; hi8 lp; lo8 lp; hi8 lk; lo8 lk] (bp ++ bk)) by (change (len [181; lo8 ver; hi8 lp; lo8 lp; hi8 lk; lo8 lk]) with 6; lia).
+    change (len [181; lo8 ver; hi8 lp; lo8 lp; hi8 lk; lo8 lk]) with 6.
+    rewrite (take_app_exact bp bk) by (fold lp; lia).
+    rewrite (drop_app_exact bp bk) by (fold lp; lia).
+    rewrite take_all by (fold lk; lia).
+    rewrite tls_conn_ok, bind_Ok. cbn [is_nil negb andb b2z]. reflexivity.
+Qed.
+
+Lemma ok_mutls ver ca pem key : wf_setting (SMuTLS ver ca pem key) = true -> setting_ok (SMuTLS ver ca pem key).
+Proof.
+  cbn [wf_setting]. intros Hw pre post p z Hc _. cbv zeta. unfold tag_of, interp_step. cbn [enc].
+  cbv zeta. rewrite !take_clamp16, <- !len_take16. rewrite <- (is_nil_take16 pem), <- (is_nil_take16 key), <- (is_nil_take16 ca).
+  assert (Hne : 0 < len (take 65535 ca) + len (take 65535 pem) + len (take 65535 key)).
+  { pose proof (len_take16_range pem). pose proof (len_take16_range key). pose proof (len_take16_range ca).
+    assert (Hn : nonempty ca || nonempty pem || nonempty key = true) by (destruct (nonempty ca || nonempty pem || nonempty key); [reflexivity|rewrite andb_false_r in Hw; discriminate]).
+    unfold nonempty in Hn. apply orb_true_iff in Hn. destruct Hn as [Hn|Hn]; [apply orb_true_iff in Hn; destruct Hn as [Hn|Hn]|];
+      apply nonempty_len, len16_pos in Hn; lia. }
+  set (ba := take 65535 ca) in *. set (bp := take 65535 pem) in *. set (bk := take 65535 key) in *.
+  set (la := len ba) in *. set (lp := len bp) in *. set (lk := len bk) in *.
+  assert (Hla : 0 <= la < 65536) by (subst la ba; apply len_take16_range).
+  assert (Hlp : 0 <= lp < 65536) by (subst lp bp; apply len_take16_range).
+  assert (Hlk : 0 <= lk < 65536) by (subst lk bk; apply len_take16_range).
+  change ([179; lo8 ver; hi8 la; lo8 la; hi8 lp; lo8 lp; hi8 lk; lo8 lk] ++ ba ++ bp ++ bk)
+    with (179 :: lo8 ver :: hi8 la :: lo8 la :: hi8 lp :: lo8 lp :: hi8 lk :: lo8 lk :: (ba ++ bp ++ bk)).
+  nzlit. change (kind_of 179) with KMuTLS.
+  set (hdr := [179; lo8 ver; hi8 la; lo8 la; hi8 lp; lo8 lp; hi8 lk; lo8 lk]).
+  set (e := 179 :: lo8 ver :: hi8 la :: lo8 la :: hi8 lp :: lo8 lp :: hi8 lk :: lo8 lk :: (ba ++ bp ++ bk)).
+  assert (HL : len e = 8 + la + lp + lk). { subst e. rewrite !len_cons, !len_app; fold la lp lk; lia. }
+  rewrite HL. pose proof (len_nonneg pre). pose proof (len_nonneg post).
+  assert (Hi : len pre = len pre) by reflexivity.
+  assert (Hlc : len (pre ++ e ++ post) = len pre + (8 + la + lp + lk) + len post) by (rewrite !len_app, HL; lia).
+  split; [|split; [reflexivity|]].
+  - pose proof (next_head pre e post (8 + la + lp + lk) HL ltac:(lia)) as N. cbv zeta in N.
+    subst e. rewrite nz_0 in N. change (kind_of 179) with KMuTLS in N. cbv iota in N.
+    set (e := 179 :: lo8 ver :: hi8 la :: lo8 la :: hi8 lp :: lo8 lp :: hi8 lk :: lo8 lk :: (ba ++ bp ++ bk)) in *. rewrite Hlc in N.
+    replace (len pre + (8 + la + lp + lk) + len post <=? len pre + 7) with false in N by lia.
+    rewrite !(idx_mid pre e post (len pre) _ Hi) in N by lia. rewrite !bind_Ok in N. subst e.
+    rewrite nz_2, nz_3, nz_4, nz_5, nz_6, nz_7 in N.
+    rewrite !w16_hi_lo in N by lia.
+    apply stride_ok_exact; try lia. rewrite N. f_equal. lia.
+  - unfold build_step. rewrite (Hc eq_refl).
+    replace (len pre + (8 + la + lp + lk) <=? len pre + 7) with false by lia.
+    rewrite !(idx_mid pre e post (len pre) _ Hi) by lia. rewrite !bind_Ok. subst e. nzlit.
+    rewrite !w16_hi_lo by lia. cbv zeta.
+    match goal with |- context [if ?b then Err EInvalid else _] => replace b with false by lia end.
+    rewrite (slice_mid pre _ post _ _ 8) by (rewrite ?len_cons, ?len_app; fold la lp lk; lia). rewrite bind_Ok.
+    rewrite (slice_mid pre _ post _ _ (8 + la)) by (rewrite ?len_cons, ?len_app; fold la lp lk; lia). rewrite bind_Ok.
+    rewrite (slice_mid pre _ post _ _ (8 + la + lp)) by (rewrite ?len_cons, ?len_app; fold la lp lk; lia). rewrite bind_Ok.
+    change (179 :: lo8 ver :: hi8 la :: lo8 la :: hi8 lp :: lo8 lp :: hi8 lk :: lo8 lk :: ba ++ bp ++ bk) with (hdr ++ (ba ++ bp ++ bk)).
+    rewrite (drop_app_exact hdr (ba ++ bp ++ bk) 8) by reflexivity.
+    rewrite !(drop_app_ge hdr (ba ++ bp ++ bk)) by (change (len hdr) with 8; lia).
+    change (len hdr) with 8.
+    rewrite (take_app_exact ba (bp ++ bk)) by (fold la; lia).
+    replace (8 + la - 8) with la by lia. rewrite (drop_app_exact ba (bp ++ bk)) by reflexivity.
+    rewrite (take_app_exact bp bk) by (fold lp; lia).
+    rewrite (drop_app_ge ba (bp ++ bk)) by (fold la; lia). fold la.
+    replace (8 + la + lp - 8 - la) with lp by lia. rewrite (drop_app_exact bp bk) by reflexivity.
+    rewrite take_all by (fold lk; lia).
+    rewrite tls_conn_ok, bind_Ok. cbn [is_nil negb andb b2z]. rewrite andb_true_r. reflexivity.
+Qed.
+
+(* ---- AES ---------------------------------------------------------------------------------------------- *)
+Lemma ok_aes k iv : wf_setting (SAES k iv) = true -> setting_ok (SAES k iv).
+Proof.
+  cbn [wf_setting]. intros Hw pre post p z _ _. cbv zeta. unfold tag_of, interp_step. cbn [enc]. cbv zeta.
+  assert (Hk : aes_keylen_ok (len k) = true /\ len iv = 16).
+  { destruct (aes_keylen_ok (len k)); [|rewrite andb_false_r in Hw; cbn in Hw; discriminate]. split; [reflexivity|]. lia. }
+  destruct Hk as [Hk Hiv]. assert (Hk' : len k = 16 \/ len k = 24 \/ len k = 32) by (unfold aes_keylen_ok in Hk; lia).
+  set (lk := len k) in *.
+  replace (clamp8 lk) with lk by (unfold clamp8; destruct (255 <? lk) eqn:E; lia).
+  rewrite Hiv. rewrite (take_all k) by (fold lk; lia). fold lk.
+  replace (lk + 16 - lk) with 16 by lia. rewrite (take_all iv) by lia.
+  change (lo8 16) with 16.
+  change ([214; lk; 16] ++ k ++ iv) with (214 :: lk :: 16 :: (k ++ iv)). nzlit. change (kind_of 214) with KAES.
+  set (hdr := [214; lk; 16]).
+  set (e := 214 :: lk :: 16 :: (k ++ iv)).
+  assert (HL : len e = 3 + lk + 16). { subst e. rewrite !len_cons, !len_app; fold lk; lia. }
+  rewrite HL. pose proof (len_nonneg pre). pose proof (len_nonneg post).
+  assert (Hi : len pre = len pre) by reflexivity.
+  assert (Hlc : len (pre ++ e ++ post) = len pre + (3 + lk + 16) + len post) by (rewrite !len_app, HL; lia).
+  split; [|split; [reflexivity|]].
+  - pose proof (next_head pre e post (3 + lk + 16) HL ltac:(lia)) as N. cbv zeta in N.
+    subst e. rewrite nz_0 in N. change (kind_of 214) with KAES in N. cbv iota in N.
+    set (e := 214 :: lk :: 16 :: (k ++ iv)) in *. rewrite Hlc in N.
+    replace (len pre + (3 + lk + 16) + len post <=? len pre + 3) with false in N by lia.
+    rewrite !(idx_mid pre e post (len pre) _ Hi) in N by lia. rewrite !bind_Ok in N. subst e.
+    rewrite nz_1, nz_2 in N.
+    apply stride_ok_exact; try lia. rewrite N. f_equal. lia.
+  - unfold build_step.
+    replace (len pre + (3 + lk + 16) <=? len pre + 3) with false by lia.
+    rewrite !(idx_mid pre e post (len pre) _ Hi) by lia. rewrite !bind_Ok. subst e. nzlit. cbv zeta.
+    match goal with |- context [if ?b then Err EInvalid else _] => replace b with false by lia end.
+    rewrite (slice_mid pre _ post _ _ 3) by (rewrite ?len_cons, ?len_app; fold lk; lia). rewrite bind_Ok.
+    change (214 :: lk :: 16 :: k ++ iv) with (hdr ++ (k ++ iv)).
+    rewrite (drop_app_exact hdr (k ++ iv) 3) by reflexivity.
+    rewrite (take_app_exact k iv) by (fold lk; lia). fold lk. rewrite Hk. cbn [negb].
+    rewrite (slice_mid pre _ post _ _ (3 + lk)) by (rewrite ?len_app; change (len hdr) with 3; fold lk; lia). rewrite bind_Ok.
+    rewrite (drop_app_ge hdr (k ++ iv)) by (change (len hdr) with 3; lia). change (len hdr) with 3.
+    replace (3 + lk - 3) with lk by lia. rewrite (drop_app_exact k iv) by reflexivity.
+    rewrite take_all by lia. rewrite Hiv. cbn [negb Z.eqb Pos.eqb]. reflexivity.
+Qed.
+
+(* ---- DNS names ----------------------------------------------------------------------------------------- *)
+Definition dnsbody (ws : list (list Z)) : list Z := flat_map (fun w => len w :: w) ws.
+
+Lemma dnsbody_cons w ws : dnsbody (w :: ws) = (len w :: w) ++ dnsbody ws.
+Proof. reflexivity. Qed.
+
+Lemma enc_names_body ns : flat_map enc_name ns = dnsbody (map (take 255) ns).
+Proof. induction ns as [|v ns IH]; [reflexivity|]. cbn [flat_map map]. rewrite IH. reflexivity. Qed.
+
+Lemma app_assoc3 {A} (a m b : list A) x : a ++ (x ++ m) ++ b = (a ++ x) ++ m ++ b.
+Proof. rewrite <- !app_assoc. reflexivity. Qed.
+
+Lemma dns_walk_body : forall ws a b, dns_walk (a ++ dnsbody ws ++ b) (length ws) (len a) = Ok (len a + len (dnsbody ws)).
+Proof.
+  induction ws as [|w ws IH]; intros a b; cbn [length dns_walk].
+  - cbn [dnsbody flat_map]. rewrite len_nil. f_equal. lia.
+  - rewrite dnsbody_cons. pose proof (len_nonneg a). pose proof (len_nonneg b). pose proof (len_nonneg w).
+    pose proof (len_nonneg (dnsbody ws)).
+    replace (len a <? len (a ++ ((len w :: w) ++ dnsbody ws) ++ b)) with true by (rewrite !len_app, len_cons; lia).
+    rewrite (idx_mid0 a ((len w :: w) ++ dnsbody ws) b (len a) eq_refl) by (rewrite len_app, len_cons; lia).
+    rewrite bind_Ok. change (nz ((len w :: w) ++ dnsbody ws) 0) with (len w).
+    rewrite app_assoc3. replace (len a + (len w + 1)) with (len (a ++ len w :: w)) by (rewrite len_app, len_cons; lia).
+    rewrite IH. f_equal. rewrite !len_app, !len_cons. lia.
+Qed.
+
+Lemma dns_names_body i : forall ws a b, 0 <= i <= len a -> Forall (fun w => 0 < len w) ws ->
+  dns_names (length ws) (a ++ dnsbody ws ++ b) i (len a + len (dnsbody ws)) (len a) (len a) = Ok ws.
+Proof.
+  induction ws as [|w ws IH]; intros a b Hi Hw; cbn [length dns_names]; [reflexivity|].
+  rewrite dnsbody_cons. inversion Hw as [|? ? Hw1 Hw2]; subst.
+  pose proof (len_nonneg a). pose proof (len_nonneg b). pose proof (len_nonneg (dnsbody ws)).
+  assert (HL : len ((len w :: w) ++ dnsbody ws) = 1 + len w + len (dnsbody ws)) by (rewrite len_app, len_cons; lia).
+  rewrite HL. replace (len a <? len a + (1 + len w + len (dnsbody ws))) with true by lia.
+  rewrite (idx_mid0 a ((len w :: w) ++ dnsbody ws) b (len a) eq_refl) by lia.
+  rewrite bind_Ok. change (nz ((len w :: w) ++ dnsbody ws) 0) with (len w). cbv zeta.
+  match goal with |- context [if ?c then Err EInvalid else _] => replace c with false by lia end.
+  rewrite (slice_mid a _ b _ _ 1) by lia. rewrite bind_Ok.
+  change (drop 1 ((len w :: w) ++ dnsbody ws)) with (w ++ dnsbody ws).
+  rewrite take_app_exact by lia.
+  rewrite app_assoc3. replace (len a + (len w + 1)) with (len (a ++ len w :: w)) by (rewrite len_app, len_cons; lia).
+  replace (len a + (1 + len w + len (dnsbody ws))) with (len (a ++ len w :: w) + len (dnsbody ws)) by (rewrite len_app, len_cons; lia).
+  rewrite IH; [reflexivity| rewrite len_app, len_cons; lia | assumption].
+Qed.
+
+Lemma firstn255_len {A} (l : list A) : len (firstn 255 l) = clamp8 (len l).
+Proof.
+  unfold len, clamp8. rewrite firstn_length. destruct (255 <? Z.of_nat (length l)) eqn:E; lia.
+Qed.
+
+Lemma ok_dns names : wf_setting (SDNS names) = true -> setting_ok (SDNS names).
+Proof.
+  cbn [wf_setting]. intros Hw pre post p z _ Ht. cbv zeta. unfold tag_of, interp_step. cbn [enc].
+  rewrite enc_names_body, <- firstn255_len.
+  set (ws := map (take 255) (firstn 255 names)).
+  assert (Hlen : len (firstn 255 names) = len ws) by (subst ws; unfold len; rewrite map_length; reflexivity).
+  rewrite Hlen.
+  assert (Hws : Forall (fun w => 0 < len w) ws).
+  { subst ws. rewrite Forall_map. rewrite forallb_forall in Hw. rewrite Forall_forall. intros v Hv.
+    assert (Hin : In v names) by (rewrite <- (firstn_skipn 255 names); apply in_or_app; left; exact Hv).
+    specialize (Hw v Hin). unfold nonempty in Hw. apply andb_true_iff in Hw. destruct Hw as [Hn _].
+    apply nonempty_len in Hn. rewrite len_take_min by lia. lia. }
+  assert (Hcn : 0 <= len ws < 256).
+  { rewrite <- Hlen, firstn255_len. pose proof (len_nonneg names). pose proof (clamp8_range (len names)). lia. }
+  change ([225; len ws] ++ dnsbody ws) with (225 :: len ws :: dnsbody ws). nzlit. change (kind_of 225) with KDNS.
+  set (e := 225 :: len ws :: dnsbody ws).
+  assert (HL : len e = 2 + len (dnsbody ws)) by (subst e; rewrite !len_cons; lia).
+  rewrite HL. pose proof (len_nonneg pre). pose proof (len_nonneg post). pose proof (len_nonneg (dnsbody ws)).
+  assert (Hi : len pre = len pre) by reflexivity.
+  assert (Hlc : len (pre ++ e ++ post) = len pre + (2 + len (dnsbody ws)) + len post) by (rewrite !len_app, HL; lia).
+  assert (Hshape : pre ++ e ++ post = (pre ++ [225; len ws]) ++ dnsbody ws ++ post) by (subst e; rewrite <- app_assoc; reflexivity).
+  assert (Hpl : len (pre ++ [225; len ws]) = len pre + 2) by (rewrite len_app; reflexivity).
+  split; [|split; [reflexivity|]].
+  - pose proof (next_head pre e post (2 + len (dnsbody ws)) HL ltac:(lia)) as N. cbv zeta in N.
+    subst e. rewrite nz_0 in N. change (kind_of 225) with KDNS in N. cbv iota in N.
+    set (e := 225 :: len ws :: dnsbody ws) in *. rewrite Hlc in N.
+    replace (len pre + (2 + len (dnsbody ws)) + len post <=? len pre + 1) with false in N by lia.
+    rewrite !(idx_mid pre e post (len pre) _ Hi) in N by lia. rewrite !bind_Ok in N. subst e. rewrite nz_1 in N.
+    set (e := 225 :: len ws :: dnsbody ws) in *.
+    replace (Z.to_nat (len ws)) with (length ws) in N by (unfold len; lia).
+    rewrite Hshape in N. rewrite <- Hpl in N.
+    rewrite dns_walk_body in N. rewrite <- Hshape in N.
+    apply stride_ok_exact; try lia. rewrite N. f_equal. lia.
+  - unfold build_step. rewrite (Ht eq_refl).
+    replace (len pre + (2 + len (dnsbody ws)) <=? len pre + 1) with false by lia.
+    rewrite !(idx_mid pre e post (len pre) _ Hi) by lia. rewrite !bind_Ok. subst e. nzlit.
+    set (e := 225 :: len ws :: dnsbody ws) in *.
+    replace (Z.to_nat (len ws)) with (length ws) by (unfold len; lia).
+    replace (len pre + (2 + len (dnsbody ws))) with (len (pre ++ [225; len ws]) + len (dnsbody ws)) by lia.
+    rewrite Hshape. rewrite <- Hpl.
+    rewrite (dns_names_body (len pre) ws (pre ++ [225; len ws]) post); [reflexivity|lia|assumption].
+Qed.
+
+(* ---- WC2 ------------------------------------------------------------------------------------------------- *)
+Definition hent (kv : list Z * list Z) : list Z := [len (fst kv); len (snd kv)] ++ fst kv ++ snd kv.
+Definition hbody (ps : list (list Z * list Z)) : list Z := flat_map hent ps.
+
+Lemma hbody_cons kv ps : hbody (kv :: ps) = hent kv ++ hbody ps.
+Proof. reflexivity. Qed.
+Lemma enc_hdrs_body hs : flat_map enc_hdr hs = hbody (map trunc_hdr hs).
+Proof. induction hs as [|kv hs IH]; [reflexivity|]. cbn [flat_map map]. rewrite IH. reflexivity. Qed.
+Lemma len_hent kv : len (hent kv) = 2 + len (fst kv) + len (snd kv).
+Proof. unfold hent. rewrite len_app, len_app. change (len [len (fst kv); len (snd kv)]) with 2. lia. Qed.
+
+Lemma wc2_walk_body : forall ps a b, 0 < len a ->
+  wc2_walk (a ++ hbody ps ++ b) (length ps) (len a) = Ok (len a + len (hbody ps)).
+Proof.
+  induction ps as [|kv ps IH]; intros a b Ha; cbn [length wc2_walk].
+  - cbn [hbody flat_map]. rewrite len_nil. f_equal. lia.
+  - rewrite hbody_cons. pose proof (len_nonneg b). pose proof (len_nonneg (fst kv)). pose proof (len_nonneg (snd kv)).
+    pose proof (len_nonneg (hbody ps)). pose proof (len_hent kv) as Hh.
+    assert (HL : len (hent kv ++ hbody ps) = 2 + len (fst kv) + len (snd kv) + len (hbody ps)) by (rewrite len_app; lia).
+    replace ((len a + 1 <? len (a ++ (hent kv ++ hbody ps) ++ b)) && (0 <? len a)) with true by (rewrite !len_app; lia).
+    rewrite (idx_mid0 a (hent kv ++ hbody ps) b (len a) eq_refl) by lia.
+    rewrite (idx_mid a (hent kv ++ hbody ps) b (len a) 1 eq_refl) by lia.
+    rewrite !bind_Ok. change (nz (hent kv ++ hbody ps) 0) with (len (fst kv)). change (nz (hent kv ++ hbody ps) 1) with (len (snd kv)).
+    rewrite app_assoc3.
+    replace (len a + (len (fst kv) + len (snd kv) + 2)) with (len (a ++ hent kv)) by (rewrite len_app; lia).
+    rewrite IH by (rewrite len_app; lia). f_equal. rewrite !len_app. lia.
+Qed.
+
+Lemma wc2_hdrs_body i : forall ps a b fuel q j, 0 <= i <= len a ->
+  Forall (fun kv => 0 < len (fst kv)) ps ->
+  (ps <> [] -> q < len a + len (hbody ps) /\ j < len a + len (hbody ps)) ->
+  (length ps < fuel)%nat ->
+  wc2_hdrs fuel (a ++ hbody ps ++ b) i (len a + len (hbody ps)) (len a) q j = Ok ps.
+Proof.
+  induction ps as [|kv ps IH]; intros a b fuel q j Hi Hw Hq Hf.
+  - destruct fuel as [|f]; [cbn in Hf; lia|]. cbn [wc2_hdrs hbody flat_map]. rewrite len_nil.
+    replace ((len a <? len a + 0) && (q <? len a + 0) && (j <? len a + 0)) with false by lia. reflexivity.
+  - destruct fuel as [|f]; [cbn in Hf; lia|]. cbn [wc2_hdrs].
+    rewrite hbody_cons. inversion Hw as [|? ? Hw1 Hw2]; subst.
+    pose proof (len_nonneg b). pose proof (len_nonneg (fst kv)). pose proof (len_nonneg (snd kv)).
+    pose proof (len_nonneg (hbody ps)). pose proof (len_hent kv) as Hh.
+    assert (HL : len (hent kv ++ hbody ps) = 2 + len (fst kv) + len (snd kv) + len (hbody ps)) by (rewrite len_app; lia).
+    destruct (Hq ltac:(discriminate)) as [Hq1 Hq2]. rewrite hbody_cons in Hq1, Hq2.
+    rewrite HL in *.
+    match goal with |- context [if ?c then _ else Ok []] => replace c with true by lia end.
+    rewrite (idx_mid0 a (hent kv ++ hbody ps) b (len a) eq_refl) by lia.
+    rewrite (idx_mid a (hent kv ++ hbody ps) b (len a) 1 eq_refl) by lia.
+    rewrite !bind_Ok. change (nz (hent kv ++ hbody ps) 0) with (len (fst kv)). change (nz (hent kv ++ hbody ps) 1) with (len (snd kv)).
+    cbv zeta.
+    match goal with |- context [if ?c then Err EInvalid else _] => replace c with false by lia end.
+    rewrite (slice_mid a _ b _ _ 2) by lia. rewrite bind_Ok.
+    rewrite (slice_mid a _ b _ _ (2 + len (fst kv))) by lia. rewrite bind_Ok.
+    assert (D1 : take (len (fst kv)) (drop 2 (hent kv ++ hbody ps)) = fst kv).
+    { unfold hent. rewrite <- !app_assoc. rewrite (drop_app_exact [len (fst kv); len (snd kv)] _ 2) by reflexivity.
+      apply take_app_exact. reflexivity. }
+    assert (D2 : take (len (snd kv)) (drop (2 + len (fst kv)) (hent kv ++ hbody ps)) = snd kv).
+    { unfold hent. rewrite <- !app_assoc.
+      rewrite (drop_app_ge [len (fst kv); len (snd kv)]) by (change (len [len (fst kv); len (snd kv)]) with 2; lia).
+      change (len [len (fst kv); len (snd kv)]) with 2. replace (2 + len (fst kv) - 2) with (len (fst kv)) by lia.
+      rewrite (drop_app_exact (fst kv)) by reflexivity. apply take_app_exact. reflexivity. }
+    replace (len (fst kv) + len a + 2 - (len a + 2)) with (len (fst kv)) by lia.
+    replace (len (snd kv) + (len (fst kv) + len a + 2) - (len (fst kv) + len a + 2)) with (len (snd kv)) by lia.
+    rewrite D1, D2.
+    rewrite app_assoc3.
+    replace (len (snd kv) + (len (fst kv) + len a + 2)) with (len (a ++ hent kv)) by (rewrite len_app; lia).
+    replace (len a + (2 + len (fst kv) + len (snd kv) + len (hbody ps))) with (len (a ++ hent kv) + len (hbody ps)) by (rewrite len_app; lia).
+    rewrite IH.
+    + rewrite bind_Ok. destruct kv; reflexivity.
+    + rewrite len_app. lia.
+    + assumption.
+    + intros Hne. rewrite len_app. destruct ps as [|kv2 ps]; [congruence|]. rewrite hbody_cons, !len_app, !len_hent.
+      pose proof (len_nonneg (fst kv2)). pose proof (len_nonneg (snd kv2)). pose proof (len_nonneg (hbody ps)). lia.
+    + cbn [length] in Hf. lia.
+Qed.
+
+Lemma len0_nil {A} (l : list A) : len l = 0 -> l = [].
+Proof. destruct l; [reflexivity|]. rewrite len_cons. pose proof (len_nonneg l). lia. Qed.
+
+Lemma firstn_all_len {A} (l : list A) n : len l <= Z.of_nat n -> firstn n l = l.
+Proof. intros H. apply firstn_all2. unfold len in H. lia. Qed.
+
+Lemma ok_wc2 url host agent nh hdrs : wf_setting (SWC2 url host agent nh hdrs) = true -> setting_ok (SWC2 url host agent nh hdrs).
+Proof.
+  cbn [wf_setting]. intros Hw pre post p z Hc _. cbv zeta. unfold tag_of, interp_step. cbn [enc]. cbv zeta.
+  repeat (apply andb_true_iff in Hw; destruct Hw as [Hw ?]).
+  assert (Hnh : nh = len hdrs) by lia. assert (Hnh2 : len hdrs <= 255) by lia.
+  rewrite (firstn_all_len hdrs 255) by (change (Z.of_nat 255) with 255; lia).
+  rewrite enc_hdrs_body.
+  set (ps := map trunc_hdr hdrs).
+  assert (Hps : len ps = nh) by (subst ps; unfold len in *; rewrite map_length; lia).
+  assert (Hpw : Forall (fun kv => 0 < len (fst kv)) ps).
+  { subst ps. rewrite Forall_map. rewrite Forall_forall. intros kv Hin.
+    match goal with Hf : forallb _ hdrs = true |- _ => rewrite forallb_forall in Hf; specialize (Hf kv Hin) end.
+    repeat (match goal with Hf : _ && _ = true |- _ => apply andb_true_iff in Hf; destruct Hf as [Hf ?] end).
+    unfold trunc_hdr. cbn [fst]. match goal with Hn : nonempty _ = true |- _ => apply nonempty_len in Hn; rewrite len_take_min by lia; lia end. }
+  assert (Hhb : (if nh =? 0 then [] else hbody ps) = hbody ps).
+  { destruct (nh =? 0) eqn:E; [|reflexivity]. assert (Hp0 : ps = []) by (apply len0_nil; lia). rewrite Hp0. reflexivity. }
+  rewrite Hhb. rewrite (lo8_small nh) by (pose proof (len_nonneg hdrs); lia).
+  set (u := take 65535 url). set (h := take 65535 host). set (a := take 65535 agent).
+  set (lu := len u). set (lh := len h). set (la := len a).
+  assert (Hlu : 0 <= lu < 65536) by (subst lu u; apply len_take16_range).
+  assert (Hlh : 0 <= lh < 65536) by (subst lh h; apply len_take16_range).
+  assert (Hla : 0 <= la < 65536) by (subst la a; apply len_take16_range).
+  set (hdr := [177; hi8 lu; lo8 lu; hi8 lh; lo8 lh; hi8 la; lo8 la; nh]).
+  change (hdr ++ u ++ h ++ a ++ hbody ps) with (177 :: hi8 lu :: lo8 lu :: hi8 lh :: lo8 lh :: hi8 la :: lo8 la :: nh :: (u ++ h ++ a ++ hbody ps)).
+  nzlit. change (kind_of 177) with KWC2.
+  set (e := 177 :: hi8 lu :: lo8 lu :: hi8 lh :: lo8 lh :: hi8 la :: lo8 la :: nh :: (u ++ h ++ a ++ hbody ps)).
+  pose proof (len_nonneg (hbody ps)) as Hhb0.
+  assert (HL : len e = 8 + lu + lh + la + len (hbody ps)). { subst e. rewrite !len_cons, !len_app; fold lu lh la; lia. }
+  rewrite HL. pose proof (len_nonneg pre). pose proof (len_nonneg post).
+  assert (Hi : len pre = len pre) by reflexivity.
+  assert (Hlc : len (pre ++ e ++ post) = len pre + (8 + lu + lh + la + len (hbody ps)) + len post) by (rewrite !len_app, HL; lia).
+  set (pa := pre ++ hdr ++ u ++ h ++ a).
+  assert (Hshape : pre ++ e ++ post = pa ++ hbody ps ++ post).
+  { subst e pa. change (177 :: hi8 lu :: lo8 lu :: hi8 lh :: lo8 lh :: hi8 la :: lo8 la :: nh :: (u ++ h ++ a ++ hbody ps)) with (hdr ++ u ++ h ++ a ++ hbody ps).
+    rewrite <- !app_assoc. reflexivity. }
+  assert (Hpa : len pa = len pre + 8 + lu + lh + la).
+  { subst pa. rewrite !len_app. change (len hdr) with 8. fold lu lh la. lia. }
+  assert (Hnps : Z.to_nat nh = length ps) by (unfold len in Hps; lia).
+  split; [|split; [reflexivity|]].
+  - pose proof (next_head pre e post _ HL ltac:(lia)) as N. cbv zeta in N.
+    subst e. rewrite nz_0 in N. change (kind_of 177) with KWC2 in N. cbv iota in N.
+    set (e := 177 :: hi8 lu :: lo8 lu :: hi8 lh :: lo8 lh :: hi8 la :: lo8 la :: nh :: (u ++ h ++ a ++ hbody ps)) in *. rewrite Hlc in N.
+    replace (len pre + (8 + lu + lh + la + len (hbody ps)) + len post <=? len pre + 7) with false in N by lia.
+    rewrite !(idx_mid pre e post (len pre) _ Hi) in N by lia. rewrite !bind_Ok in N. subst e.
+    rewrite nz_1, nz_2, nz_3, nz_4, nz_5, nz_6, nz_7 in N.
+    rewrite !w16_hi_lo in N by lia. cbv zeta in N.
+    set (e := 177 :: hi8 lu :: lo8 lu :: hi8 lh :: lo8 lh :: hi8 la :: lo8 la :: nh :: (u ++ h ++ a ++ hbody ps)) in *.
+    destruct (len pre + (8 + lu + lh + la + len (hbody ps)) + len post <=? len pre + 8 + lu + lh + la) eqn:E.
+    + assert (len post = 0) by lia. destruct post as [|x post]; [|rewrite len_cons in *; pose proof (len_nonneg post); lia].
+      apply stride_ok_end; [rewrite Hlc; rewrite len_nil; lia|exact N].
+    + rewrite idx_in in N by (rewrite Hlc; lia). rewrite bind_Ok in N.
+      destruct (nh =? 0) eqn:E0.
+      * assert (Hp0 : ps = []) by (apply len0_nil; lia). rewrite Hp0 in *. cbn [hbody flat_map] in *. rewrite len_nil in *.
+        apply stride_ok_exact; try lia. rewrite N. f_equal. lia.
+      * rewrite Hnps in N. rewrite Hshape in N. rewrite <- Hpa in N. rewrite wc2_walk_body in N by lia.
+        rewrite <- Hshape in N. apply stride_ok_exact; try lia. rewrite N. f_equal. lia.
+  - unfold build_step. rewrite (Hc eq_refl).
+    replace (len pre + (8 + lu + lh + la + len (hbody ps)) <=? len pre + 7) with false by lia.
+    rewrite !(idx_mid pre e post (len pre) _ Hi) by lia. rewrite !bind_Ok. subst e. nzlit.
+    rewrite !w16_hi_lo by lia. cbv zeta.
+    set (e := 177 :: hi8 lu :: lo8 lu :: hi8 lh :: lo8 lh :: hi8 la :: lo8 la :: nh :: (u ++ h ++ a ++ hbody ps)) in *.
+    set (n := len pre + (8 + lu + lh + la + len (hbody ps))).
+    match goal with |- context [if ?c then Err EInvalid else _] => replace c with false by lia end.
+    assert (De : e = hdr ++ u ++ h ++ a ++ hbody ps) by reflexivity.
+    assert (U : (if len pre + 8 <? lu + len pre + 8 then slice (pre ++ e ++ post) (len pre + 8) (lu + len pre + 8) else Ok []) = Ok u).
+    { destruct (len pre + 8 <? lu + len pre + 8) eqn:E.
+      - rewrite (slice_mid pre e post _ _ 8) by lia. f_equal. rewrite De.
+        rewrite (drop_app_exact hdr _ 8) by reflexivity. apply take_app_exact. fold lu. lia.
+      - f_equal. symmetry. apply len0_nil. fold lu. lia. }
+    rewrite U, bind_Ok.
+    assert (Hh : (if lu + len pre + 8 <? lh + (lu + len pre + 8)
+                  then if (n <? lh + (lu + len pre + 8)) || (n <? lu + len pre + 8) || (lh + (lu + len pre + 8) <? lu + len pre + 8)
+                          || (lu + len pre + 8 <? len pre) || (lh + (lu + len pre + 8) <? len pre)
+                       then Err EInvalid else slice (pre ++ e ++ post) (lu + len pre + 8) (lh + (lu + len pre + 8))
+                  else Ok []) = Ok h).
+    { destruct (lu + len pre + 8 <? lh + (lu + len pre + 8)) eqn:E.
+      - match goal with |- context [if ?c then Err EInvalid else _] => replace c with false by (subst n; lia) end.
+        rewrite (slice_mid pre e post _ _ (8 + lu)) by lia. f_equal. rewrite De.
+        rewrite (drop_app_ge hdr) by (change (len hdr) with 8; lia). change (len hdr) with 8.
+        replace (8 + lu - 8) with lu by lia. rewrite (drop_app_exact u) by reflexivity. apply take_app_exact. fold lh. lia.
+      - f_equal. symmetry. apply len0_nil. fold lh. lia. }
+    rewrite Hh, bind_Ok.
+    assert (Ha : (if lh + (lu + len pre + 8) <? la + (lh + (lu + len pre + 8))
+                  then if (n <? la + (lh + (lu + len pre + 8))) || (n <? lh + (lu + len pre + 8)) || (la + (lh + (lu + len pre + 8)) <? lh + (lu + len pre + 8))
+                          || (lh + (lu + len pre + 8) <? len pre) || (la + (lh + (lu + len pre + 8)) <? len pre)
+                       then Err EInvalid else slice (pre ++ e ++ post) (lh + (lu + len pre + 8)) (la + (lh + (lu + len pre + 8)))
+                  else Ok []) = Ok a).
+    { destruct (lh + (lu + len pre + 8) <? la + (lh + (lu + len pre + 8))) eqn:E.
+      - match goal with |- context [if ?c then Err EInvalid else _] => replace c with false by (subst n; lia) end.
+        rewrite (slice_mid pre e post _ _ (8 + lu + lh)) by lia. f_equal. rewrite De.
+        rewrite (drop_app_ge hdr) by (change (len hdr) with 8; lia). change (len hdr) with 8.
+        rewrite (drop_app_ge u) by (fold lu; lia). fold lu.
+        replace (8 + lu + lh - 8 - lu) with lh by lia. rewrite (drop_app_exact h) by reflexivity. apply take_app_exact. fold la. lia.
+      - f_equal. symmetry. apply len0_nil. fold la. lia. }
+    rewrite Ha, bind_Ok.
+    assert (Hhs : (if 0 <? nh then wc2_hdrs (length (pre ++ e ++ post)) (pre ++ e ++ post) (len pre) n
+                     (la + (lh + (lu + len pre + 8))) (lh + (lu + len pre + 8)) 0 else Ok []) = Ok ps).
+    { destruct (0 <? nh) eqn:E.
+      - rewrite Hshape. replace n with (len pa + len (hbody ps)) by (subst n; lia).
+        replace (la + (lh + (lu + len pre + 8))) with (len pa) by lia.
+        apply wc2_hdrs_body; try assumption; try lia.
+        + intros Hne. destruct ps as [|kv ps']; [congruence|]. rewrite hbody_cons, len_app, len_hent.
+          pose proof (len_nonneg (fst kv)). pose proof (len_nonneg (snd kv)). pose proof (len_nonneg (hbody ps')). lia.
+        + rewrite !app_length. assert (Hb3 : (2 * length ps <= length (hbody ps))%nat).
+          { clear. induction ps as [|kv ps IH]; [cbn; lia|]. rewrite hbody_cons, app_length. unfold hent. rewrite !app_length. cbn [length].
+            lia. }
+          lia.
+      - f_equal. symmetry. apply len0_nil. pose proof (len_nonneg ps). lia. }
+    rewrite Hhs, bind_Ok. reflexivity.
+Qed.
+
+(* ---- every constructor --------------------------------------------------------------------------------- *)
+Lemma all_settings_ok s : wf_setting s = true -> enc s <> [] -> setting_ok s.
+Proof.
+  destruct s; intros Hw He.
+  - apply ok_host; assumption.
+  - apply ok_sleep; assumption.
+  - apply ok_jitter; assumption.
+  - apply ok_weight; assumption.
+  - apply ok_killdate; assumption.
+  - apply ok_workhours; assumption.
+  - apply ok_keypin; assumption.
+  - apply ok_bit; assumption.
+  - apply ok_ip; assumption.
+  - apply ok_wc2; assumption.
+  - apply ok_tlsex; assumption.
+  - apply ok_tlsexca; assumption.
+  - apply ok_tlscerts; assumption.
+  - apply ok_mutls; assumption.
+  - apply ok_xor; assumption.
+  - apply ok_cbk; assumption.
+  - apply ok_aes; assumption.
+  - apply ok_dns; assumption.
+  - apply ok_b64s; assumption.
+Qed.
+
+(* a nil Setting (Host(""), Sleep(<=0), Weight(0), KeyPin(empty key)) changes nothing *)
+Lemma interp_nil s st : enc s = [] -> interp_step s st = st.
+Proof.
+  destruct st as [p z]. destruct s; cbn [enc interp_step]; intros He; try discriminate;
+    try (match goal with |- (if ?b then _ else _) = _ => destruct b; [reflexivity|discriminate] end).
+  destruct zero; discriminate.
+Qed.
+
+(* connection / transform flags after a setting *)
+Lemma interp_flags s p z : wf_setting s = true ->
+  has_conn (fst (interp_step s (p, z))) = (has_conn p || is_conn s) /\
+  has_trans (fst (interp_step s (p, z))) = (has_trans p || is_trans s).
+Proof.
+  intros Hw. destruct s; cbn [interp_step is_conn is_trans fst];
+    try (match goal with |- context [if ?b then (p, z) else _] => destruct b end);
+    cbn [fst]; rewrite ?orb_false_r, ?orb_true_r; try (split; reflexivity).
+  cbn [wf_setting] in Hw. destruct (kind_of b); try discriminate; cbn [fst]; rewrite ?orb_false_r, ?orb_true_r; split; reflexivity.
 Qed.
